@@ -57,10 +57,16 @@ def one(ctx, res: Result, hist, cfg, batch, mode):
             g = pipe.sort_synthetic_runs(pipe.collapse(got))
             w = pipe.sort_synthetic_runs(pipe.collapse(want))
             if g != w:
+                extra = [x for x in g if x not in w]
+                stale = moved_out_prefixes(run, i)
+                phantom = bool(extra) and not [x for x in w if x not in g] and all(
+                    any(x[1] == p or x[1].startswith(p + b"/") for p in stale) for x in extra)
                 res.failures.append(Failure(
                     what=f"operation {e['kind']} {'/'.join(e['path'])}{' -> ' + '/'.join(e['path2']) if e['path2'] else ''} issued alone "
                          f"did not deliver its contract", case={**meta, "op_index": j},
-                    signature={"law": "contract", "op": e["kind"], "dir": e["was_dir"],
+                    signature={"law": "unjustified", "pattern": "stale-in-tree-path-of-a-directory-that-was-moved-out",
+                               "event": extra[0][0]} if phantom else
+                              {"law": "contract", "op": e["kind"], "dir": e["was_dir"],
                                "areas": e["path"][0] + (">" + e["path2"][0] if e["path2"] else "")},
                     observed=pipecheck.printable(g), expected=pipecheck.printable(w)))
                 break
